@@ -39,16 +39,18 @@ ASSUMPTIONS = [
     "wrong-length stacked vectors and wrong-shaped values are not judged (the property speaks about variables, not shapes)",
 ]
 REQUIRED_COUNTERS = {
-    "quick": {"metamorphic_checked": 4000, "absolute_joint_checked": 150, "absolute_factor_checked": 150,
-              "malformed_refused": 600, "branch_Posterior": 150, "branch_Distribution": 100,
-              "branch_MultipleLikelihoodPosterior": 20, "branch_Stacked": 60, "branch_JointDistribution": 1000,
-              "branch_EvaluatedDensity": 100, "branch_Likelihood": 60, "posterior_decomposition_checked": 60,
-              "bayesianproblem_checked": 60, "original_intact_checked": 60},
-    "thorough": {"metamorphic_checked": 80000, "absolute_joint_checked": 3000, "absolute_factor_checked": 3000,
-                 "malformed_refused": 12000, "branch_Posterior": 3000, "branch_Distribution": 2000,
-                 "branch_MultipleLikelihoodPosterior": 400, "branch_Stacked": 1200, "branch_JointDistribution": 20000,
-                 "branch_EvaluatedDensity": 2000, "branch_Likelihood": 1200, "posterior_decomposition_checked": 1200,
-                 "bayesianproblem_checked": 1200, "original_intact_checked": 1200},
+    "quick": {"metamorphic_checked": 14000, "absolute_joint_checked": 180, "absolute_factor_checked": 1900,
+              "malformed_refused": 5500, "branch_Posterior": 1300, "branch_Distribution": 2400,
+              "branch_MultipleLikelihoodPosterior": 1000, "branch_Stacked": 600, "branch_JointDistribution": 9000,
+              "branch_EvaluatedDensity": 1200, "branch_Likelihood": 350, "posterior_decomposition_checked": 180,
+              "bayesianproblem_checked": 300, "original_intact_checked": 60, "assembled_checked": 120,
+              "history_recheck": 170, "partial_conditioning_checked": 120},
+    "thorough": {"metamorphic_checked": 260000, "absolute_joint_checked": 3400, "absolute_factor_checked": 35000,
+                 "malformed_refused": 100000, "branch_Posterior": 24000, "branch_Distribution": 45000,
+                 "branch_MultipleLikelihoodPosterior": 18000, "branch_Stacked": 11000, "branch_JointDistribution": 170000,
+                 "branch_EvaluatedDensity": 22000, "branch_Likelihood": 6500, "posterior_decomposition_checked": 3400,
+                 "bayesianproblem_checked": 5600, "original_intact_checked": 1100, "assembled_checked": 2200,
+                 "history_recheck": 3200, "partial_conditioning_checked": 2200},
 }
 BUDGET_S = {"quick": 240.0, "thorough": 2400.0}
 
@@ -327,7 +329,7 @@ def _alias_rename(R, nodes):
         return
 
 def cases(tier, seed):
-    n = 160 if tier == "quick" else 4000
+    n = 160 if tier == "quick" else 3000
     out = []
     for i in range(n):
         R = core.rng_for(seed, PROPERTY, tier, i)
@@ -526,7 +528,7 @@ class Engine:
             fn = lambda: obj_x.logd(*args, **kw)
         else:
             raise ValueError(how)
-        if how == "mix" and kw and args:
+        if how == "mix" and kw and args and br not in ("JointDistribution", "MultipleLikelihoodPosterior"):
             # positional + keyword in one evaluation: documented for the joint, explicitly refused by single densities
             try:
                 v = fn()
